@@ -141,10 +141,15 @@ def showText : Option Text → String
   | none => "none"
   | some t => s!"{fnv t}:{t.length}"
 
+def showSubDetail (s : Sub Name Name) : String :=
+  let coh := if s.cohs.isEmpty then "-" else ";".intercalate (s.cohs.map (fun p => s!"{asciiOfName p.1}={p.2.bits32}"))
+  s!"{s.chaos.bits32}~{if s.bom then 1 else 0}~{showText s.text}~{coh}"
+
 def showMatch (m : Match Name Name) : String :=
   let subs := if m.subs.isEmpty then "-" else ",".intercalate (m.subs.map (fun s => asciiOfName s.enc))
+  let subd := if m.subs.isEmpty then "-" else ",".intercalate (m.subs.map showSubDetail)
   let lang := mostProbableNow m
-  s!"{asciiOfName m.enc}|{subs}|{m.chaos.bits32}|{showCoh m.cohs}|{if m.bom then 1 else 0}|{showText m.text}|{m.mbu.bits32}|{m.chaosPercents.bits32}|{m.coherencePercents.bits32}|{asciiOfName lang}"
+  s!"{asciiOfName m.enc}|{subs}|{m.chaos.bits32}|{showCoh m.cohs}|{if m.bom then 1 else 0}|{showText m.text}|{m.mbu.bits32}|{m.chaosPercents.bits32}|{m.coherencePercents.bits32}|{asciiOfName lang}|{subd}"
 
 def showFault : Fault → String
   | .slice s => s!"slice@{s}"
